@@ -99,6 +99,26 @@ package actor
 //@             ==> ncalls() == old(ncalls()) + 1 && callfn(old(ncalls())) == "(*timebank.TimeBank).NewTask"
 //@                 && callarg(old(ncalls()), 0) == pr.tableInfo.Meta.ActionTime * 1000000000
 
+// what a human player's runner does when a table snapshot arrives: it never acts on its own account before the
+// timer — everything it may do here is ask the adapter for its hand index, tell its listener, start the timer
+// (requestMove), pass, or (only when suspended) the conservative automatic answer
+//@ spec prQuiet(k) = callfn(k) == "actor.Adapter.GetGamePlayerIndex" || callfn(k) == "callback:onTableStateUpdated" || callfn(k) == "(*timebank.TimeBank).NewTask" || callfn(k) == "actor.Adapter.Pass"
+//@ spec prConservative(k) = callfn(k) == "actor.Adapter.Ready" || callfn(k) == "actor.Adapter.Check" || callfn(k) == "actor.Adapter.Fold" || callfn(k) == "actor.Adapter.Pay"
+//@ func (*playerRunner).UpdateTableState
+//@   property C19
+//@   returns err
+//@   requires pr != nil && SnapOK(table) && ActionsWF(pr.actions, pr.actor, pr.playerID) && pr.timebank != nil && typeis(pr.actor, "*actor.actor") && ref(pr.actor) != 0
+//@   assume at call Adapter.GetGamePlayerIndex : hand-index-in-range: result0 == -1 || (table.State.GameState != nil && 0 <= result0 && result0 < len(table.State.GameState.Players))
+//@   modifies pr.tableInfo, pr.curGameID, pr.lastGameStateTime, log, table.State.GameState.Meta.Deck, table.State.GameState.Status.Burned,
+//@            forall(k, 0, 10, table.State.GameState.Players[k].HoleCards), forall(k, 0, 10, table.State.GameState.Players[k].Combination)
+//@   loop 0 unroll 10
+//@   ensures stale-view-is-ignored: table.State.GameState != nil && old(pr.lastGameStateTime) >= table.State.GameState.UpdatedAt ==> noCall() && err == nil
+//@   ensures not-at-the-table-stays-silent: !botSeated(pr, table) ==> noCall() && err == nil
+//@   ensures never-volunteers-chips: ncalls() <= old(ncalls()) + 3 && forall(j, 0, 3, old(ncalls()) + j < ncalls() ==> prQuiet(old(ncalls()) + j) || prConservative(old(ncalls()) + j))
+//@   ensures does-nothing-before-the-timer-unless-suspended: pr.status != PlayerStatus_Suspend ==> forall(j, 0, 3, old(ncalls()) + j < ncalls() ==> prQuiet(old(ncalls()) + j))
+//@   ensures between-hands-only-the-listener-hears: table.State.Status != "table_game_playing" ==> forall(j, 0, 3, old(ncalls()) + j < ncalls()
+//@             ==> callfn(old(ncalls()) + j) == "actor.Adapter.GetGamePlayerIndex" || callfn(old(ncalls()) + j) == "callback:onTableStateUpdated")
+
 // ---- bot runner (C18) ---------------------------------------------------------------------------
 
 //@ spec AA(gs, idx) = gs.Players[idx].AllowedActions
